@@ -120,3 +120,11 @@ Require Import GM.model.InlineParseX GM.model.GfmI GM.proofs.GfmWf.
 Theorem C05_gfm_parser_output_wf : forall xc src t, bytes_ok src -> ParseTreeX xc src = Ok t -> wf_tree src t = true.
 Proof. exact ParseTreeX_wf. Qed.
 Print Assumptions C05_gfm_parser_output_wf.
+
+(* ---------------- and for the parser with extension.Typographer and extension.DefinitionList
+   (model/TypoDefI.v; both switches): every tree is well formed, for EVERY source
+   (proofs/TypoDefWf*.v, 58 files, 18.9 k lines) *)
+Require Import GM.model.TypoDefParse GM.model.TypoDefI GM.proofs.TypoDefWf.
+Theorem C05_typodef_parser_output_wf : forall tc src t, bytes_ok src -> ParseTreeTD tc src = Ok t -> wf_tree src t = true.
+Proof. exact ParseTreeTD_wf. Qed.
+Print Assumptions C05_typodef_parser_output_wf.
